@@ -9,7 +9,7 @@ KEYF = 'cardutil/key.py'
 VBSMODS = ['contracts.mciipm_block', 'contracts.mciipm_vbs', 'contracts.vbs_lists']
 
 ISO = 'cardutil/iso8583.py'
-ISOMODS = ['contracts.bitarray', 'contracts.iso_field', 'contracts.iso_pds', 'contracts.iso_msg']
+ISOMODS = ['contracts.bitarray', 'contracts.iso_field', 'contracts.iso_pds', 'contracts.iso_msg', 'contracts.iso_loops']
 
 PROPS = {
     'C01': {
@@ -21,7 +21,7 @@ PROPS = {
         ],
         'assumptions': ["single-byte codec E is abstract: ENC/DEC uninterpreted with 0<=ENC<=255, ENCODABLE(c) => DECODABLE(ENC(c)) and DEC(ENC(c)) = c, digits/space/a-f/A-F encodable (checked exhaustively for latin_1, cp500, cp037 by the native stand-in)",
                         "int(str) on ASCII digits is the decimal value, otherwise ValueError or ANY integer; format(v,'0Wd') for 0<=v<10^W is the W zero-padded digits; strptime(format(dt,fmt),fmt) = dt for REPRESENTABLE dt (uninterpreted predicate: the two-digit-year window is only exercised by the native stand-in)",
-                        "message level: element SUBSETS are a fixed family (listed in contracts/iso_msg.py: text+typed, far-apart, var-with-max, lllvar+icc, fixed+int+llvar, MTI only, PDS sets) with all values, lengths, MTI digits, codec and bitmap rendering symbolic; arbitrary subsets follow by the loop invariant over bits 2..127, which is argued (field contracts are for every configuration shape) but not mechanised",
+                        "message level: (i) loop invariants over bits 2..127 for EVERY subset of elements and ANY configuration table (contracts/iso_loops.py: _dict_to_iso8583 and _iso8583_to_dict with the per-element functions replaced by their contracts, which iso_field.py proves per configuration shape); (ii) end-to-end execution of the real dumps/loads, nothing abstracted, for a fixed family of subsets (text+typed, far-apart, var-with-max, lllvar+icc, fixed+int+llvar, MTI only, PDS sets) with all values, lengths, MTI digits, codec and bitmap rendering symbolic; the composition of (i) with the per-shape field round trips into a single all-subsets round-trip theorem is the standard contract-composition argument, not a separate mechanised lemma",
                         "decimal fields: exception behaviour only (no round trip claimed)"],
     },
     'C02': {
@@ -91,7 +91,7 @@ PROPS = {
             (ISO, "        except struct.error as ex:\n            raise Iso8583DataError(f'Unable to process DE{bit} ICC data',", "        except KeyError as ex:\n            raise Iso8583DataError(f'Unable to process DE{bit} ICC data',", "struct.error escapes from ICC data", "_iso8583_to_field[LLLVAR,ICC"),
         ],
         'assumptions': ["exception sets of the library models are what makes this meaningful: int -> ValueError, decode -> UnicodeDecodeError, struct.unpack -> struct.error, unhexlify -> binascii.Error, strptime -> ValueError, Decimal -> InvalidOperation, s[i] -> IndexError, d[k] -> KeyError; re.match is assumed to terminate; MemoryError / RecursionError / wall-clock `promptly` are out of reach",
-                        "loads on arbitrary bytes is decided per element shape (every configuration shape of the packaged table, any bytes of any length) and, at message level, for a fixed family of bitmaps with arbitrary data; hex-bitmap decoding for arbitrary 32 bytes",
+                        "loads on arbitrary bytes: per element shape (every configuration shape, any bytes of any length); at message level for EVERY bitmap and ANY configuration by loop invariant (element functions by contract), and end to end for a fixed family of bitmaps; hex-bitmap decoding with an arbitrary bitmap character",
                         "command-line tools: cli_run is not executed symbolically (argparse / open); they catch exactly MciIpmDataError, which is what IpmReader.__next__ is proved to raise"],
     },
     'C08': {
@@ -99,10 +99,11 @@ PROPS = {
         'canaries': [
             (ISO, "        if field_length < 0:\n            raise Iso8583DataError(f'Invalid field length DE{bit}', binary_context_data=message_data)\n", "", "negative length prefix accepted", "_iso8583_to_field[LLVAR,text"),
             (ISO, "    if message_pointer != len(message_data):", "    if message_pointer > len(message_data):", "trailing bytes ignored", "loads-framing[fixed-only"),
+            (ISO, "            message_pointer += message_increment\n", "            message_pointer += message_increment\n            if message_pointer >= len(message_data):\n                break\n", "bitmap walk stops early when the data is used up", "_iso8583_to_dict/all-bitmaps"),
             (ISO, "    field_data = message_data[length_size:length_size + field_length]", "    field_data = message_data[length_size:length_size + field_length + 1]", "element reads one byte too many", "_iso8583_to_field[LLVAR,text"),
         ],
         'assumptions': ["numerals that are not plain ASCII digits: int() may return any integer; the contract still requires a non-negative length and exact framing for whatever is returned",
-                        "message level for a fixed family of bitmaps ({2,3,72}, {31,33}, {3,14,24}) with arbitrary bytes after the bitmap; acceptance of every well-framed message is the round-trip units of C01"],
+                        "message level: tiling (offsets advance by each flagged element's own non-negative size, end of the last element = end of the data) for EVERY bitmap and ANY configuration by loop invariant with _iso8583_to_field replaced by its contract; plus end-to-end for the bitmaps {2,3,72}, {31,33}, {3,14,24} with arbitrary bytes after the bitmap; acceptance of every well-framed message is the round-trip units of C01"],
     },
     'C12': {
         'modules': ISOMODS,
